@@ -302,8 +302,13 @@ func (w *World) Apply(op Op) {
 	case "settings":
 		// Create with a compatible schema that switches cache / asynchronous writes on the live handle
 		w.Cfg.Cache = op.Alt%2 == 1
-		w.Cfg.Async = []int{0, 1, 2}[op.Alt/2]
-		if err := w.DB.Create(&Rec{}, w.Cfg.Schema(&Rec{})); err != nil {
+		w.Cfg.Async = []int{0, 1, 2, 0}[op.Alt/2]
+		sc := w.Cfg.Schema(&Rec{})
+		if op.Alt/2 == 3 {
+			// asynchronous writes switched off with a non-nil, disabled settings value
+			sc.AsyncWrites = &sod.Async{Enable: false, Threshold: 2, Timeout: 2 * step}
+		}
+		if err := w.DB.Create(&Rec{}, sc); err != nil {
 			w.fail("settings-create-err", fmt.Sprintf("Create with new cache/async settings returned %v", err))
 		}
 	case "createflip":
